@@ -153,6 +153,11 @@ func runHistory(c *simcheck.Ctx, sc *histScenario, prefix string, skip func(i in
 				c.St.Count("load_failed_under_injected_io_error", 1)
 				continue
 			}
+			if h.p.anyModuleFails() {
+				c.St.Count("load_failed_on_a_broken_module", 1)
+				starts[i] = nil
+				continue
+			}
 			if first {
 				return nil, nil, simcheck.V(simcheck.EngineError, "generated project does not load: %v", res.LoadErr), false
 			}
@@ -343,6 +348,15 @@ func sourceLabelOf(p *projSpec, t *targetSpec, s string) string {
 	return "source://" + dir + ":" + name
 }
 
+func (p *projSpec) anyModuleFails() bool {
+	for i := range p.Modules {
+		if p.Modules[i].Fails {
+			return true
+		}
+	}
+	return false
+}
+
 // crashHook, if set, is told about every interrupted build of a history.
 var crashHook func()
 
@@ -361,6 +375,7 @@ func c14Gen(r *rand.Rand, tier string) any {
 	sc.Ops = append(sc.Ops, opSpec{Op: "build", Label: pickLabel(r, shadow)})
 	removed := 0
 	seenGC := false
+	broken := -1
 	for i := 0; i < n; i++ {
 		switch k := r.IntN(12); {
 		case k < 3:
@@ -403,7 +418,25 @@ func c14Gen(r *rand.Rand, tier string) any {
 			sc.Ops = append(sc.Ops, op)
 		case k < 9:
 			seenGC = true
-			sc.Ops = append(sc.Ops, opSpec{Op: "gc", Index: r.IntN(2) == 0}) // `dawn gc` loads from the index when it can
+			gc := opSpec{Op: "gc", Index: r.IntN(2) == 0} // `dawn gc` loads from the index when it can
+			if !gc.Index {
+				// a long-lived process: collect on the project the previous operation loaded,
+				// after a Reload or as it is
+				gc.Reload = r.IntN(3) == 0
+				gc.Keep = !gc.Reload && r.IntN(4) == 0
+			}
+			sc.Ops = append(sc.Ops, gc)
+			if broken < 0 && len(shadow.Modules) > 0 && r.IntN(5) == 0 {
+				// a typo in a helper module: loads fail until it is repaired (index-based loads
+				// do not notice)
+				broken = r.IntN(len(shadow.Modules))
+				sc.Ops = append(sc.Ops, opSpec{Op: "set-module-fails", Item: fmt.Sprint(broken), N: 1 + r.IntN(3)},
+					opSpec{Op: "build", Label: pickLabel(r, shadow)}, opSpec{Op: "gc", Index: true})
+				if r.IntN(2) == 0 {
+					sc.Ops = append(sc.Ops, opSpec{Op: "set-module-fails", Item: fmt.Sprint(broken), N: 0})
+					broken = -2
+				}
+			}
 		default:
 			op := opSpec{Op: "build", Label: pickLabel(r, shadow)}
 			// watch mode: the project of the previous build is reloaded, not loaded afresh
@@ -422,6 +455,9 @@ func c14Gen(r *rand.Rand, tier string) any {
 			}
 			sc.Ops = append(sc.Ops, op)
 		}
+	}
+	if broken >= 0 {
+		sc.Ops = append(sc.Ops, opSpec{Op: "set-module-fails", Item: fmt.Sprint(broken), N: 0})
 	}
 	// the last build sometimes runs on the project the collection loaded (a REPL session)
 	sc.Ops = append(sc.Ops, opSpec{Op: "gc"}, opSpec{Op: "build", Label: pickLabel(r, shadow), Keep: r.IntN(2) == 0, Always: r.IntN(2) == 0})
@@ -592,7 +628,8 @@ func c14Exec(scAny any, c *simcheck.Ctx) *simcheck.Violation {
 		for n := range after {
 			// a collection that loaded the project from its index knows the targets of the last
 			// full load; records of targets removed since then are not dead to it yet
-			if !live[n] && !op.Index {
+			// (nor to a collection on a project that was loaded before the latest edits and not reloaded)
+			if !live[n] && !op.Index && !op.Keep {
 				return simcheck.V("gc-kept-dead-record", "after garbage collection the record %s remains although no target or source of the project has it", n)
 			}
 		}
